@@ -60,7 +60,7 @@ type effScan struct {
 // ctxLike: names currently rooted in the context (set by scan; the translator is single-threaded)
 var curRoots map[string]string
 
-func rootIdent(e ast.Expr) (*ast.Ident, []string) {
+func storeRootIdent(e ast.Expr) (*ast.Ident, []string) {
 	var path []string
 	for {
 		switch x := e.(type) {
@@ -88,7 +88,7 @@ func rootIdent(e ast.Expr) (*ast.Ident, []string) {
 			}
 			if _, local := x.Fun.(*ast.Ident); local {
 				for _, a := range x.Args {
-					if id, p := rootIdent(a); id != nil && strings.HasPrefix(curRoots[id.Name], "ctx") && passesReference(a, "", p) {
+					if id, p := storeRootIdent(a); id != nil && strings.HasPrefix(curRoots[id.Name], "ctx") && passesReference(a, "", p) {
 						return id, append(p, "*")
 					}
 				}
@@ -131,7 +131,7 @@ func (s *effScan) scan(body *ast.BlockStmt, roots map[string]string) {
 					if _, ok := roots[id.Name]; ok {
 						continue
 					}
-					if rid, path := rootIdent(r); rid != nil {
+					if rid, path := storeRootIdent(r); rid != nil {
 						if lab, ok := roots[rid.Name]; ok {
 							roots[id.Name] = strings.Join(append([]string{lab}, path...), ".")
 							changed = true
@@ -150,7 +150,7 @@ func (s *effScan) scan(body *ast.BlockStmt, roots map[string]string) {
 				}
 				bind(l, x.Values)
 			case *ast.RangeStmt:
-				if rid, path := rootIdent(x.X); rid != nil {
+				if rid, path := storeRootIdent(x.X); rid != nil {
 					if lab, ok := roots[rid.Name]; ok {
 						if id, ok := x.Value.(*ast.Ident); ok && id.Name != "_" {
 							if _, ok := roots[id.Name]; !ok {
@@ -187,7 +187,7 @@ func (s *effScan) scan(body *ast.BlockStmt, roots map[string]string) {
 				if _, plain := l.(*ast.Ident); plain {
 					continue
 				}
-				if id, path := rootIdent(l); id != nil {
+				if id, path := storeRootIdent(l); id != nil {
 					if lab, ok := roots[id.Name]; ok {
 						record(lab, path)
 					}
@@ -195,7 +195,7 @@ func (s *effScan) scan(body *ast.BlockStmt, roots map[string]string) {
 			}
 		case *ast.IncDecStmt:
 			if _, plain := x.X.(*ast.Ident); !plain {
-				if id, path := rootIdent(x.X); id != nil {
+				if id, path := storeRootIdent(x.X); id != nil {
 					if lab, ok := roots[id.Name]; ok {
 						record(lab, path)
 					}
@@ -214,7 +214,7 @@ func (s *effScan) scan(body *ast.BlockStmt, roots map[string]string) {
 					break
 				}
 				// method on a rooted receiver
-				if id, path := rootIdent(f.X); id != nil {
+				if id, path := storeRootIdent(f.X); id != nil {
 					if lab, ok := roots[id.Name]; ok {
 						if !readOnlyMethods[f.Sel.Name] && !(valueMethods[f.Sel.Name] && strings.HasSuffix(strings.Join(append([]string{lab}, path...), "."), ".Value")) {
 							record(lab, path)
@@ -224,7 +224,7 @@ func (s *effScan) scan(body *ast.BlockStmt, roots map[string]string) {
 				}
 				// pkg.Func(..., rooted, ...): another package gets the context or a part of it
 				for _, a := range x.Args {
-					if id, path := rootIdent(a); id != nil {
+					if id, path := storeRootIdent(a); id != nil {
 						if lab, ok := roots[id.Name]; ok && strings.HasPrefix(lab, "ctx") {
 							if _, isPtrLike := a.(*ast.BasicLit); !isPtrLike && passesReference(a, lab, path) {
 								record(lab, append(path, "*"))
@@ -240,7 +240,7 @@ func (s *effScan) scan(body *ast.BlockStmt, roots map[string]string) {
 					for _, fld := range g.Type.Params.List {
 						for _, nm := range fld.Names {
 							if i < len(x.Args) {
-								if id, path := rootIdent(x.Args[i]); id != nil {
+								if id, path := storeRootIdent(x.Args[i]); id != nil {
 									if lab, ok := roots[id.Name]; ok {
 										sub[nm.Name] = strings.Join(append([]string{lab}, path...), ".")
 									}
